@@ -345,7 +345,7 @@ func DrawVerifyCase(t *rapid.T) VerifyCase {
 	d, _, _ := PrivKey(t, "d")
 	px, py, pub := Pub(d)
 	cls := gen.Pick(t, "vclass", "valid", "valid-shaped", "bitflip", "bitflip", "length", "r=0", "s=0", "s=n", "r+s=n", "R=inf", "r+n", "s+n",
-		"x+p", "y>=p", "offcurve", "negY", "zeroKey", "garbage", "swap", "r>=n", "e+n", "chosen-R", "chosen-R", "chosen-R", "modshift", "modshift", "midway-infinity", "midway-infinity")
+		"x+p", "y>=p", "offcurve", "negY", "zeroKey", "garbage", "swap", "r>=n", "e+n", "chosen-R", "chosen-R", "chosen-R", "modshift", "modshift", "midway-infinity", "midway-infinity", "special-key")
 	// a valid signature to start from
 	mk := func(shaped bool) (e, rb, sb []byte) {
 		for {
@@ -537,6 +537,25 @@ func DrawVerifyCase(t *rapid.T) VerifyCase {
 			c.Px, c.Py, c.E, c.R, c.S = gen.Pad32(pk.X), gen.Pad32(pk.Y), gen.Pad32(ev), gen.Pad32(rr), gen.Pad32(s)
 			c.Class = "chosen-R:x=" + xcls + ",e=" + ecls
 			break
+		}
+	case "special-key":
+		// public keys that are small multiples of the generator or their negatives: G, -G (the image of the EXCLUDED private key
+		// n-1 — no signer has it, but it is a valid point, and verification is defined for it), 2G, -2G, ... The tuple comes from
+		// the equation-solving route, which needs only the public point.
+		k := int64(gen.Uniform(t, "gmult", 1, 4))
+		pt := sm2ref.Mul(big.NewInt(k), sm2ref.G)
+		name := fmt.Sprintf("%dG", k)
+		if gen.Uniform(t, "gneg", 0, 2) != 0 {
+			pt = sm2ref.Neg(pt)
+			name = "-" + name
+		}
+		pub = pt
+		c.Px, c.Py = gen.Pad32(pt.X), gen.Pad32(pt.Y)
+		var inf bool
+		c.E, c.R, c.S, inf = solve(uni(), uni())
+		c.Class = "special-key:" + name
+		if inf {
+			c.Class += ",R=inf"
 		}
 	case "x+p", "y>=p":
 		// key with a tiny x so that x+p fits in 32 bytes; the secret key of such a point is unknown, so the
